@@ -1,12 +1,15 @@
 """C06 — word-level instruction semantics are exact and total.
 
 Obligations: T-purefuns (guards / constants / pure functions / concrete-path return expressions with
-their divisors and work measures, bitvec.py -> Gen/GenBitvecGuards.v), Props/C06.vo (theorems about
-Model/BitVecModel.v over the regenerated definitions), lint.
+their divisors and work measures, branch structure; bitvec.py -> Gen/GenBitvecGuards.v), T-wordops (the
+opcode arms of SEVM.run, SEVM.arith, bitwise(), the abstraction functions; sevm.py -> Gen/GenWordOps.v),
+Props/C06.vo (theorems about Model/BitVecModel.v, which interprets the regenerated arms over the
+regenerated definitions), lint.
 Tie X-C06:
   L2  one-instruction SEVM.run on a hand-built Exec whose stack holds every mix of operand
-      representations (int-backed, term-backed, TRUE/FALSE, symbolic HalmosBool) — the real
-      dispatch layer (pop/popi/top/topi, bitwise(), SEVM.arith, sym_byte_of, int_of);
+      representations (int-backed, term-backed, TRUE/FALSE, symbolic HalmosBool) on top of 0..3
+      other words that must be left untouched — the real dispatch layer (pop/popi/top/topi,
+      bitwise(), SEVM.arith, sym_byte_of, int_of);
   L1  the real HalmosBitVec methods at sizes 256 and 8, abstractions on and off;
   L2p short real programs (PUSH .. ISZERO NOT etc.) showing the Bool-typed cases are reachable.
 Every result (concrete int or z3 term) is evaluated under several valuations by an own
